@@ -7,8 +7,33 @@ cd "$(dirname "$0")"
 ID="$1"; TIER="${2:-${VERIF_TIER:-quick}}"
 mkdir -p .build evidence replays
 cp /repo/go.sum mc/go.sum 2>/dev/null || true
-BIN=.build/mc
 LOG=.build/build.$ID.log
+case "$ID" in
+  C04|C05|C20)
+    # instrumented build: pongo2 compiled through a generated overlay (never written into /repo or /verif)
+    BIN=.build/mc-inst
+    OV=$(mktemp -d /tmp/verif-overlay.XXXXXX)
+    cleanup() { python3 -c "import shutil,sys; shutil.rmtree(sys.argv[1], ignore_errors=True)" "$OV"; }
+    trap cleanup EXIT
+    built=0
+    (cd instr && flock ../.build/build.lock go build -o ../.build/instr .) >"$LOG" 2>&1
+    for MODE in full stores sync; do
+      mkdir -p "$OV/$MODE"
+      if .build/instr -repo /repo -shim "$PWD/shim/vsched" -out "$OV/$MODE" -mode $MODE >>"$LOG" 2>&1 && \
+         (cd mc && flock ../.build/build.lock go build -tags verif,verifinst -overlay "$OV/$MODE/overlay.json" -o ../$BIN ./cmd/mc) >>"$LOG" 2>&1; then
+        built=1; export VERIF_INSTR_MODE=$MODE; break
+      fi
+    done
+    if [ $built = 0 ]; then
+      if (cd /repo && go build -tags verif ./... ) >>"$LOG" 2>&1; then
+        echo "TOOL-FAILURE property=$ID: the instrumented build failed although /repo compiles; see $LOG (not a violation)"; head -20 "$LOG"; exit 3
+      fi
+      echo "BUILD-FAILED property=$ID (/repo does not compile with -tags verif); see $LOG"; head -30 "$LOG"; exit 2
+    fi
+    $BIN check "$ID" --tier "$TIER"; exit $?
+    ;;
+esac
+BIN=.build/mc
 if ! (cd mc && flock ../.build/build.lock go build -tags verif -o ../$BIN ./cmd/mc) >"$LOG" 2>&1; then
   echo "BUILD-FAILED property=$ID (the harness or /repo does not compile with -tags verif); see $LOG"
   head -30 "$LOG"
